@@ -11,9 +11,22 @@ if TYPE_CHECKING:
 
 class GtfIterator(SequenceIterator):
     """ GTF Iterator """
+    modes = 't'
+
     def __init__(self, source:Union[IO, str], mode='t'):
         """ Constructor """
-        super().__init__(source=source, mode=mode, fmt='GTF')
+        try:
+            super().__init__(source=source, mode=mode, fmt='GTF')
+        except TypeError:
+            # Newer Biopython no longer takes `mode` and no longer calls
+            # `parse` itself.
+            super().__init__(source=source, fmt='GTF')
+        if not hasattr(self, 'records'):
+            self.records = self.parse(self.stream)
+
+    def __next__(self) -> GTFSeqFeature:
+        """ Return the next GTF record. """
+        return next(self.records)
 
     def parse(self, handle:IO[str]) -> Iterable[GTFSeqFeature]:
         """ parse
